@@ -56,6 +56,7 @@ type Node struct {
 	Elem    *Node      `json:"elem,omitempty"`
 	CT      string     `json:"ct,omitempty"`       // custom: "string"|"int"; pre: "any_str"|"str_list"
 	ReqOpt  *TestSpec  `json:"req_opt,omitempty"`  // options passed to Required()/NotNil(): Msg, Code, Path
+	Extra   bool       `json:"extra,omitempty"`    // struct: the destination type has two more fields than the schema describes
 	OptCall bool       `json:"opt_call,omitempty"` // optional node built as .Required().Optional()
 	W       string     `json:"w,omitempty"`        // width variant: int -> "64" (Int64 / int64), float -> "32" (Float32 / float32)
 	Coercer string     `json:"coercer,omitempty"`  // z.WithCoercer on a primitive: "const" (always CoVal) | "fail" (always an error)
@@ -230,6 +231,11 @@ func typeOf(n *Node, rev bool) reflect.Type {
 				fmt.Fprintf(&tag, "%s:%q", kv.K, kv.V.S)
 			}
 			fs = append(fs, reflect.StructField{Name: GoName(f.Key), Type: typeOf(f.N, rev), Tag: reflect.StructTag(tag.String())})
+		}
+		if n.Extra {
+			// the destination may have fields the schema does not describe: they are none of the library's business
+			fs = append(fs, reflect.StructField{Name: "ZzNotInSchema", Type: reflect.TypeOf(map[string]int(nil))},
+				reflect.StructField{Name: "ZzAlsoNot", Type: reflect.TypeOf((*int)(nil))})
 		}
 		if rev {
 			for i, j := 0, len(fs)-1; i < j; i, j = i+1, j-1 {
